@@ -3,10 +3,13 @@ import TunnoxModel.Spec.C04
 /-!
 Line protocol for C04 (see harness/c04/main.go):
   open pl <ok|junk|empty> maps <k> (<id> <listen> <target> <secret|-> <a|i> <rev 0|1> <exp 0|1|2>)*
-       conn <hs 0|1|2> <cid> req <mid|-> <secret|-> <token|-> ts <none | bridge <mid> <served> | remote <mid>>
+       conn <hs 0|1|2> <cid> req <mid|-> <secret|-> <token|-> ts <none | bridge <mid> <served> | remote <mid> | local <mid>>
   obs: ack <none|ok|fail> att <none|src|tgt|fwd> data <0|1> ret <switch|err|pending>
 The clock is 1000; exp 1 = expired at 500, exp 2 = expires at 2000.  This node is node-A, the other node-B.
 `ret` is compared between model and implementation but is not part of the property.
+  e2e      obs: secret <set|empty> src <ack> tgt <ack> data <0|1>
+A mapping created through the real PortMappingService without a secret, then listen client (mapping id) and target
+client (the generated secret) open the same tunnel: compared with the fixed expectation "both admitted, bytes flow".
 -/
 namespace Tunnox.Drv.C04
 open Tunnox.C04
@@ -34,6 +37,7 @@ def parseTs : List String → Option TunnelState
   | ["none"] => some .none
   | ["bridge", m, sv] => some (.bridge m (sv == "1"))
   | ["remote", m] => some (.remote m "node-B")
+  | ["local", m] => some (.remote m "node-A")
   | _ => none
 
 def parseCase : List String → Option Case
@@ -76,6 +80,7 @@ def parseObs : List String → Option Obs
   | _ => none
 
 def runModel (ts : List String) : String :=
+  if ts == ["e2e"] then "secret set src ok tgt ok data 1" else
   match parseCase ts with
   | some c =>
     let o := openTunnel c.w c.id c.req c.ts
@@ -84,6 +89,8 @@ def runModel (ts : List String) : String :=
   | none => "bad-case"
 
 def runHolds (caseToks obsToks : List String) : String :=
+  -- `e2e` (legitimate parties are still served) is compared with the model line only; it is not the property
+  if caseToks == ["e2e"] then boolStr (obsToks.head? == some "secret") else
   match parseCase caseToks, parseObs obsToks with
   | some c, some o => boolStr (holds c.w c.id c.req c.ts o)
   | _, _ => "false"
